@@ -84,7 +84,7 @@ def risk_case(item):
             for n in t.root.members:
                 exp = ref(n)
                 got = getattr(n, "risk", {}).get(m, None)
-                if got is None or abs(float(got) - exp) > 1e-9 * max(1.0, abs(exp)):
+                if got is None or not (abs(float(got) - exp) <= 1e-9 * max(1.0, abs(exp))):
                     viols.append({"rule": "risk_aggregation", "expected": {"node": n.full_name, "measure": m, "date": str(t.root.now), "risk": exp}, "observed": got})
                 depth = n.full_name.count(">")
                 has_hist = hasattr(n, "risks")
@@ -92,7 +92,7 @@ def risk_case(item):
                     viols.append({"rule": "risk_history_depth", "expected": {"node": n.full_name, "depth": depth, "history": history, "has_risks": depth < history}, "observed": has_hist})
                 elif has_hist:
                     row = n.risks.loc[t.root.now, m] if (t.root.now in n.risks.index and m in n.risks.columns) else None
-                    if row is None or abs(float(row) - exp) > 1e-9 * max(1.0, abs(exp)):
+                    if row is None or not (abs(float(row) - exp) <= 1e-9 * max(1.0, abs(exp))):
                         viols.append({"rule": "risk_history_row", "expected": {"node": n.full_name, "measure": m, "date": str(t.root.now), "risk": exp}, "observed": None if row is None else float(row)})
     return (ndate + 1, viols[:6], len(viols))
 
@@ -154,7 +154,7 @@ def hedge_case(item):
     after = np.array([float(s.risk[m]) for m in measures])
     b = np.array([before[m] for m in measures])
     if square:
-        if np.max(np.abs(after)) > 1e-9 * max(1.0, np.max(np.abs(b))):
+        if not (np.max(np.abs(after)) <= 1e-9 * max(1.0, np.max(np.abs(b)))):
             sig = "hedge_residual|square|multiplier=%s" % hmult if hmult != 1 else None
             viols.append({"rule": "hedge_leaves_risk", "sig": sig, "expected": {"risk_after": [0.0] * len(measures), "risk_before": before, "instrument_multiplier": hmult}, "observed": [float(x) for x in after]})
     else:
@@ -217,7 +217,7 @@ def close_roll_case(item):
         if not use_select_active and cd <= labels[1]:
             continue  # closed before the one-off purchase: buying afterwards is the stack's own doing
         for lab in labels[1:]:
-            if lab >= cd and abs(float(pos[sec].loc[lab])) > 1e-9:
+            if lab >= cd and not (abs(float(pos[sec].loc[lab])) <= 1e-9):
                 # a rolled-into target may legitimately hold a position; only the closed name is checked
                 viols.append({"rule": "position_after_close_date", "expected": {"security": sec, "close_date": str(cd), "date": str(lab), "position": 0.0}, "observed": float(pos[sec].loc[lab])})
                 break
@@ -237,7 +237,7 @@ def close_roll_case(item):
         prev = labels[labels.index(first) - 1]
         before_pos = float(pos[sec].loc[prev])
         for lab in done:
-            if abs(float(pos[sec].loc[lab])) > 1e-9:
+            if not (abs(float(pos[sec].loc[lab])) <= 1e-9):
                 viols.append({"rule": "position_after_roll_date", "expected": {"security": sec, "roll_date": str(rd), "date": str(lab), "position": 0.0}, "observed": float(pos[sec].loc[lab])})
                 break
         if not use_select_active:
@@ -253,7 +253,7 @@ def close_roll_case(item):
             got = float(pos[tgt_name].loc[labels[-1]])
             closed_tgt = tgt_name in closes and when[closes[tgt_name]] <= labels[-1]
             rolled_tgt = tgt_name in rolls and when[rolls[tgt_name][0]] <= labels[-1]
-            if not closed_tgt and not rolled_tgt and abs(got - exp) > 1e-9 * max(1.0, abs(exp)):
+            if not closed_tgt and not rolled_tgt and not (abs(got - exp) <= 1e-9 * max(1.0, abs(exp))):
                 viols.append({"rule": "rolled_quantity", "expected": {"target": tgt_name, "position": exp, "factor": factor}, "observed": got})
     return (1, viols[:5], len(viols))
 
@@ -309,7 +309,7 @@ def chain_case(item):
                     ref[k] -= pre[k]
                     ref[graph[k]] += factors[k] * pre[k]
             got = {k: float(s[k].position) for k in order}
-            if any(abs(got[k] - ref[k]) > 1e-9 for k in order):
+            if not all(abs(got[k] - ref[k]) <= 1e-9 for k in order):
                 viols.append({"rule": "positions_after_close_and_roll", "expected": {"date": str(idx[i]), "positions": dict(ref), "positions_before_call": pre}, "observed": got})
                 break
     except Exception as e:
